@@ -1343,6 +1343,13 @@ class TenSym(PySym):
         # ---- classes given by their source
         if cn in self.classes and cn not in self.models:
             return self.instantiate(cn, [self.ex(a) for a in n.args], {k.arg: self.ex(k.value) for k in n.keywords if k.arg})
+        if cn == "setattr" and len(n.args) == 3 and "setattr" not in self.models:
+            o_ = self.ex(n.args[0])
+            nm_ = self.pyval(self.ex(n.args[1]))
+            if isinstance(o_, Obj) and isinstance(nm_, str):
+                setattr(o_, nm_, self.ex(n.args[2]))
+                return None
+            raise Unsupported("setattr on %s" % type(o_).__name__)
         if cn in ("getattr", "hasattr") and len(n.args) >= 2:
             o_ = self.ex(n.args[0])
             nm_ = self.pyval(self.ex(n.args[1]))
@@ -2358,6 +2365,9 @@ class TenSym(PySym):
                             recv.data[o] = Rat(Poly.const(v))
                     return
                 raise Unsupported("in-place sort of %s" % type(recv).__name__)
+            if isinstance(s.value, ast.Call) and call_name(s.value) == "setattr" and "setattr" not in self.models:
+                self.ex(s.value)
+                return
             if isinstance(s.value, ast.Call) and (call_name(s.value) or "") in self.models:
                 self.ex(s.value)        # a summarised callee called for its effect (a mutating kernel)
                 return
